@@ -12,6 +12,11 @@ def parseG : String → Option G
   | "X" => some .x | "Y" => some .y | "Z" => some .z | "S" => some .s
   | "CX" => some .cx | "CCX" => some .ccx | "Swap" => some .swap
   | "KronXCX" => some .kxcx | "KronCXX" => some .kcxx
+  | "Inc2" => some .inc2 | "Inc3" => some .inc3 | "Inc4" => some .inc4
+  | "CInc2" => some .cinc2 | "CInc3" => some .cinc3
+  | "KronXInc2" => some .kxinc2 | "KronXInc3" => some .kxinc3
+  | "KronInc2X" => some .kinc2x | "KronInc3X" => some .kinc3x
+  | "CompXInc3" => some .compxinc3 | "LoopInc3" => some .loopinc3
   | _ => none
 
 /-- split a word list at every `;` -/
